@@ -1353,7 +1353,7 @@ void AsyncSim::quiesce() {
 			if (K.failed()) return;
 		}
 	};
-	size_t out0 = outstanding();
+	size_t out0 = outstanding() + superseded_conf.size(); // superseded configuration requests are still in the client's send queue
 	int B = (int)((out0 + maxreq - 1) / maxreq) + maxto + 4;
 	if (ha) B += maxto + 2; // HA returns one handle per sub-service per run and may wait for every endpoint's own timeout
 	int rounds = 0;
